@@ -2,14 +2,17 @@
 # usage: tools/try_patch_scratch.sh <patch.diff> <ID> [tier]
 # apply a seeded change to a scratch worktree of /repo (HEAD) and run a check against it (VERIF_REPO); /repo is untouched
 P=$(readlink -f "$1"); ID="$2"; TIER="${3:-quick}"
+HERE=$(cd "$(dirname "$0")/.." && pwd)
 W=/tmp/mw/$$; mkdir -p /tmp/mw
 git -C /repo worktree add -q --detach $W HEAD || exit 2
-trap 'git -C /repo worktree remove --force '$W' 2>/dev/null; rm -rf /tmp/mw/ev$$ /tmp/mw/rp$$' EXIT INT TERM
+trap 'git -C /repo worktree remove --force '$W' 2>/dev/null; rm -rf /tmp/mw/ev$$ /tmp/mw/rp$$ /tmp/mw/log$$' EXIT INT TERM
 if ! git -C $W apply "$P" 2>/dev/null; then echo "patch does not apply on the current tree"; exit 3; fi
-cd /verif
+cd "$HERE"
 VERIF_REPO=$W VERIF_EVIDENCE_DIR=/tmp/mw/ev$$ VERIF_REPLAY_DIR=/tmp/mw/rp$$ ./check "$ID" --tier "$TIER" > /tmp/mw/log$$ 2>&1
 rc=$?
-grep -E "^(VIOLATION|KNOWN-FINDING|MACHINERY|C[0-9]+:)" /tmp/mw/log$$ | cut -c1-160 | sort | uniq -c | sort -rn | head -4
-grep -h "signature" /tmp/mw/log$$ | sort | uniq -c | sort -rn | head -5
-echo "exit=$rc (1 = detected)"; rm -f /tmp/mw/log$$
+grep -E "^(MACHINERY|C[0-9]+:)" /tmp/mw/log$$ | cut -c1-160 | sort | uniq -c | sort -rn | head -3
+grep -c "^VIOLATION" /tmp/mw/log$$ | sed 's/^/VIOLATION lines: /'
+grep -c "^KNOWN-FINDING" /tmp/mw/log$$ | sed 's/^/KNOWN-FINDING lines: /'
+grep -h "^  signature" /tmp/mw/log$$ | sort | uniq -c | sort -rn | head -5
+echo "exit=$rc (1 = detected)"
 exit $rc
